@@ -25,6 +25,7 @@
 #include <kernel/analytic/function.hpp>
 #include <kernel/assembly/interpolator.hpp>
 #include <kernel/lafem/dense_vector.hpp>
+#include <kernel/lafem/dense_vector_blocked.hpp>
 #if C15_GROUP == 1
 #include <kernel/space/lagrange1/element.hpp>
 #include <kernel/space/lagrange2/element.hpp>
@@ -91,6 +92,29 @@ public:
       HessianType h;
       for(int a(0); a < dim_; ++a) for(int b(0); b < dim_; ++b) { int o[3] = {0, 0, 0}; o[a] += 1; o[b] += 1; h[a][b] = f.deriv(x, o); }
       return h;
+    }
+  };
+};
+
+// vector field whose component k is the monomial m[k]
+template<int dim_> class MonomialField : public Analytic::Function
+{
+public:
+  static constexpr int domain_dim = dim_;
+  typedef Analytic::Image::Vector<dim_> ImageType;
+  static constexpr bool can_value = true, can_grad = false, can_hess = false;
+  std::vector<Monomial<dim_>> m;
+  template<typename Traits_> class Evaluator : public Analytic::Function::Evaluator<Traits_>
+  {
+  public:
+    typedef typename Traits_::PointType PointType; typedef typename Traits_::ValueType ValueType;
+    const MonomialField& f;
+    explicit Evaluator(const MonomialField& fn) : f(fn) {}
+    ValueType value(const PointType& p)
+    {
+      double x[3] = {0, 0, 0}; int o[3] = {0, 0, 0}; for(int a(0); a < dim_; ++a) x[a] = double(p[a]);
+      ValueType v; for(int k(0); k < dim_; ++k) v[k] = f.m[std::size_t(k)].deriv(x, o);
+      return v;
     }
   };
 };
@@ -245,12 +269,13 @@ template<class Shape_, class Space_> vj::Value run_mesh(const vj::Value& c, Mesh
   if constexpr (Space_::have_node_func)
   {
     const vj::Value& monos = c["monos"];
+    // one coefficient vector for all monomials: every interpolation goes into the vector that holds the previous result
+    LAFEM::DenseVector<double, Index> vec;
     for(std::size_t mi(0); mi < monos.size(); ++mi)
     {
       const bool tensor_only = monos[mi]["t"].as_int() != 0;
       if(tensor_only && !axpar) continue;
       Monomial<dim> mono(monos[mi]["e"].ints());
-      LAFEM::DenseVector<double, Index> vec;
       Assembly::Interpolator::project(vec, mono, space);
       const double* coef = vec.elements();
       ++nmono;
@@ -275,6 +300,47 @@ template<class Shape_, class Space_> vj::Value run_mesh(const vj::Value& c, Mesh
       ce.finish();
     }
   }
+  // ---- Reproduce for vector fields (DenseVectorBlocked overload), including a repeated interpolation into the same vector ----
+  Worst wvrep; bool vecfield = false;
+#if C15_GROUP != 4
+  if constexpr (Space_::have_node_func)
+  {
+    vecfield = true;
+    const vj::Value& monos = c["monos"];
+    std::vector<std::size_t> use;
+    for(std::size_t mi(0); mi < monos.size(); ++mi) if(monos[mi]["t"].as_int() == 0 || axpar) use.push_back(mi);
+    LAFEM::DenseVectorBlocked<double, Index, dim> vb;
+    for(std::size_t round(0); round < std::min<std::size_t>(use.size(), 3) + 1; ++round)
+    {
+      // component k = monomial use[(round + k) % size]; the last round repeats the first field
+      MonomialField<dim> fld;
+      for(int k(0); k < dim; ++k) fld.m.emplace_back(monos[use[(round % std::max<std::size_t>(1, std::min<std::size_t>(use.size(), 3)) + std::size_t(k)) % use.size()]]["e"].ints());
+      Assembly::Interpolator::project(vb, fld, space);
+      const auto* bv = vb.elements();
+      std::vector<double> comp(ng);
+      for(int k(0); k < dim; ++k)
+      {
+        for(Index i(0); i < ng; ++i) comp[i] = double(bv[i][k]);
+        for(Index cc(0); cc < ncells; ++cc)
+        {
+          ce.prepare(cc);
+          for(std::size_t p(0); p < lattice.size(); p += 2)
+          {
+            ce.at(lattice[p].data());
+            double x[3] = {0, 0, 0}; for(int a(0); a < dim; ++a) x[a] = double(ce.td.img_point[a]);
+            int o[3] = {0, 0, 0};
+            const double u = fld.m[std::size_t(k)].deriv(x, o), uh = ce.value(comp.data());
+            if(exact) wvrep.add(uh == u ? 0.0 : std::max(std::fabs(uh - u), 1e-300), 0.0);
+            else wvrep.add(std::fabs(uh - u), TOL * (1.0 + ce.absval(comp.data())));
+          }
+        }
+        ce.finish();
+      }
+    }
+  }
+#endif
+  std::fprintf(f, ",\"vecfield\":%s", vecfield ? "true" : "false");
+  put_worst(f, "vrep", wvrep);
   std::fprintf(f, ",\"nodefunc\":%s,\"nmono\":%lld,\"hasgrad\":%s,\"hashess\":%s,\"exactcmp\":%s", Space_::have_node_func ? "true" : "false", nmono,
     CE::has_grad ? "true" : "false", CE::has_hess ? "true" : "false", exact ? "true" : "false");
   put_worst(f, "rep", wrep); put_worst(f, "dgrad", wgrad); put_worst(f, "dhess", whess);
